@@ -92,6 +92,7 @@ pub fn profile(id: &str) -> Option<Profile> {
         }
         "C08" => {
             g.frag_pct = 20;
+            g.growth_pct = 3;
             g.par_pct = 25;
             g.tiny_cache_pct = 50;
             g.op_weights = [50, 5, 25, 6, 3, 3, 0, 0, 2];
@@ -156,7 +157,7 @@ pub fn profile(id: &str) -> Option<Profile> {
         }
         "C04" => (Kind::Crash, 2000, 40_000),
         "C05" => (Kind::Crash, 1500, 40_000),
-        "C12" => (Kind::Crash, 240, 15_000),
+        "C12" => (Kind::Crash, 150, 15_000),
         "C17" => (Kind::Fault, 500, 12_000),
         "C09" => (Kind::Conformance, 3000, 150_000),
         "C14" => (Kind::Malformed, 20_000, 1_000_000),
